@@ -294,6 +294,22 @@ func c06Cases(quick bool) []*c06Case {
 	add("error/exact", "@start s = A B | @error\n", "func (p *parser) on_s(_ Token, _ Token) int { return 1 }\n\nfunc (p *parser) on_s__err(e Error) int {\n\tp.st.checks++\n\tif e.Token.Idx != 101 {\n\t\tp.st.fails = append(p.st.fails, fmt.Sprint(\"Error parameter carries token \", e.Token.Idx))\n\t}\n\treturn 2\n}\n", nil, true, 0)
 	add("error/any", "@start s = A B | @error\n", "func (p *parser) on_s(_ Token, _ Token) int { return 1 }\n\nfunc (p *parser) on_s__err(e any) int { return 2 }\n", nil, true, 0)
 	add("error/token-param", "@start s = A B | @error\n", "func (p *parser) on_s(_ Token, _ Token) int { return 1 }\n\nfunc (p *parser) on_s__err(e Token) int { return 2 }\n", nil, false, 0, "lox:| @error", "go:on_s__err(")
+	// an @error production with the same shape as a token production of the same rule:
+	// each needs its own method (Error is not assignable to Token nor Token to Error)
+	errOK := "func (p *parser) on_s(x Token, _ Token) int {\n\tp.expect(\"token parameter\", any(x), any(Token{Type: A, Idx: 100}))\n\treturn 1\n}\n\nfunc (p *parser) on_s__err(e Error, _ Token) int { return 2 }\n"
+	add("error/same-shape/token-first", "@start s = A B | @error B\n", errOK, nil, true, 1)
+	add("error/same-shape/error-first", "@start s = @error B | A B\n", errOK, nil, true, 1)
+	add("error/same-shape/no-error-method", "@start s = A B | @error B\n", "func (p *parser) on_s(_ Token, _ Token) int { return 1 }\n", nil, false, 0, "lox:| @error B")
+	add("error/same-shape/no-error-method-error-first", "@start s = @error B | A B\n", "func (p *parser) on_s(_ Token, _ Token) int { return 1 }\n", nil, false, 0, "lox:@start s = @error B")
+	add("error/same-shape/no-token-method", "@start s = A B | @error B\n", "func (p *parser) on_s__err(e Error, _ Token) int { return 2 }\n", nil, false, 0, "lox:@start s = A B")
+	// one method serving two productions whose terms have different types, both
+	// assignable to a parameter that is not an interface (named slice / unnamed slice)
+	add("layout/shared-method-named-slice", "@start s = a* B | c C\na = A\nc = C C\n",
+		"type LS []S\n\nfunc (p *parser) on_a(_ Token) S { return S{V: 7} }\n\nfunc (p *parser) on_c(_ Token, _ Token) LS { return LS{{V: 1}, {V: 2}} }\n\n"+
+			"func (p *parser) on_s(xs LS, t Token) int {\n\tif t.Type == B {\n\t\tvar want LS\n\t\tfor i := 100; i < t.Idx; i++ {\n\t\t\twant = append(want, S{V: 7})\n\t\t}\n\t\tp.expect(\"parameter of on_s for a*\", any(xs), any(want))\n\t} else {\n\t\tp.expect(\"parameter of on_s for c\", any(xs), any(LS{{V: 1}, {V: 2}}))\n\t}\n\treturn 1\n}\n", nil, true, 1)
+	add("layout/shared-method-map-types", "@start s = a B | c B\na = A\nc = C\n",
+		"func (p *parser) on_a(_ Token) NM { return NM{\"k\": 1} }\n\nfunc (p *parser) on_c(_ Token) map[string]int { return map[string]int{\"q\": 2} }\n\n"+
+			"func (p *parser) on_s(m NM, t Token) int {\n\tif t.Idx == 101 && len(m) == 1 {\n\t\tp.st.checks++\n\t} else {\n\t\tp.st.checks++\n\t\tp.st.fails = append(p.st.fails, fmt.Sprint(\"on_s received \", m))\n\t}\n\treturn 1\n}\n", nil, true, 1)
 	// x*! : elements are filtered through their Discard() method
 	dS := "type D struct{ V int }\n\nfunc (d D) Discard() bool { return d.V%2 == 1 }\n\n"
 	add("discard/value-receiver", "@start s = a*! B\na = A\n", dS+"func (p *parser) on_a(t Token) D { return D{V: t.Idx} }\n\nfunc (p *parser) on_s(xs []D, b Token) int {\n\tvar want []D\n\tfor i := 100; i < b.Idx; i++ {\n\t\tif i%2 == 0 {\n\t\t\twant = append(want, D{V: i})\n\t\t}\n\t}\n\tp.expect(\"parameter of on_s for a*!\", any(xs), any(want))\n\treturn 1\n}\n", nil, true, 1)
@@ -477,6 +493,10 @@ func c06Batch(tag string, cases []*c06Case, st *mc.Stats, mu *sync.Mutex) []mc.V
 			return [][]int{{3}, {2, 3}, {2, 2, 3}, {2, 2, 2, 3}}
 		case strings.Contains(cs.Lox, "A*! B"):
 			return [][]int{{3}, {2, 3}, {2, 2, 2, 3}}
+		case strings.Contains(cs.Lox, "a* B | c C"):
+			return [][]int{{3}, {2, 3}, {2, 2, 3}, {4, 4, 4}}
+		case strings.Contains(cs.Lox, "@error B"):
+			return [][]int{{2, 3}, {4, 3}}
 		case strings.Contains(cs.Lox, "a* B"):
 			return [][]int{{3}, {2, 3}, {2, 2, 3}}
 		case strings.Contains(cs.Lox, "a+ B"):
